@@ -365,9 +365,9 @@ def hard_errors(pid, rel, baseline):
     negative over all strings / numbers ("every other string is rejected"): when the recognising table itself
     cannot be read from the source (say, a lookup through a hash of the string), sampling inputs says nothing
     about the sparse accepted set, so the property is no longer shown to hold and the check says so."""
+    out = [(a, m) for a, m in rel if a == "cfgspace"]      # code under a `cfg` no check here can build (targets, ...)
     if pid != "C18":
-        return []
-    out = []
+        return out
     for aspect, msg in rel:
         if aspect in ("status", "bitflags", "*"):
             out.append((aspect, msg))
